@@ -66,6 +66,12 @@ CHECKS = {
    text="For every accepted, well-typed program of the C01 expression space in 10 value-flow uses, every IR sub-expression is paired with the emitted syntax and the type recorded when the builder pushed it must equal the type go/types gives that syntax evaluated on its own (typed: identical; untyped: same kind); every declared object's builder-scope type must equal go/types' Info.Defs type; Recorder.Member objects must be the selected objects. Deviations pinned in known/C03.<tier>.tsv.",
    note="Trusted: go/types 1.23.5; parallel IR/syntax traversal; programs the builder accepts but go/types rejects are C01's business and skipped here.",
    design="§4 C03"),
+ "C02": dict(
+   category="exploration",
+   technique="bounded exhaustive enumeration of valid Go programs (expression space, statement-skeleton space, template-generated statement corpus) built by the canonical operation sequences on the real CodeBuilder; oracle = go/types acceptance of the reference + equality of typed canonical forms of emitted and reference text",
+   text="For every program of the three spaces whose reference rendering go/types accepts (quick: ~190k valid programs out of 2.5M enumerated), the builder must report no error, the emitted package must type-check, and the typed canonical form of the function (identifiers replaced by the identity of the object they resolve to; parentheses, import names, positions dropped; `else {if}`==`else if`, `L: ; S`==`L: S`) must equal the reference's. Deviations pinned in known/C02.<tier>.tsv.",
+   note="Trusted: go/types 1.23.5; the IR renderer and the driver (a wrong transcription shows up as a disagreement and is fixed in the driver, never listed as a finding); canonical-form normalisations listed above.",
+   design="§4 C02"),
 }
 
 NOT_APPLICABLE = {
